@@ -5,10 +5,12 @@ import (
 	"runtime/debug"
 	"sort"
 	"strings"
+	"sync"
 	"time"
 
 	"k8s.io/apimachinery/pkg/labels"
 
+	proxyv1alpha1 "github.com/kubewharf/kubegateway/pkg/apis/proxy/v1alpha1"
 	_interface "github.com/kubewharf/kubegateway/pkg/ratelimiter/store/interface"
 	"github.com/kubewharf/kubegateway/pkg/ratelimiter/store/k8s"
 	"github.com/kubewharf/kubegateway/pkg/ratelimiter/util"
@@ -36,6 +38,8 @@ type op struct {
 	Upstream string `json:"upstream,omitempty"`
 	Name     string `json:"name,omitempty"`
 	Ver      int32  `json:"version,omitempty"`
+	// Part (get-mutate-save / mutate-resave): which part of the aliased object is modified in place: both | spec | status
+	Part string `json:"part,omitempty"`
 	// During: an operation another goroutine of the limiter performs while this flush / tick / stop is between two of
 	// its API calls (right before its AtCall-th call); if the flush makes fewer calls, During runs right after it.
 	During *op `json:"concurrently,omitempty"`
@@ -46,6 +50,8 @@ func (o op) String() string {
 	switch o.Kind {
 	case "save", "other-shard-store-save", "seed":
 		return fmt.Sprintf("%s(%s=v%d)", o.Kind, o.Name, o.Ver)
+	case "get-mutate-save", "mutate-resave":
+		return fmt.Sprintf("%s(%s.%s=v%d)", o.Kind, o.Name, o.Part, o.Ver)
 	case "delete":
 		return fmt.Sprintf("delete(%s)", o.Name)
 	case "delete-upstream":
@@ -90,6 +96,24 @@ func (s sequence) String() string {
 	return fmt.Sprintf("%s shard=%d %s", s.Mode, s.Shard, strings.Join(ss, " "))
 }
 
+// genSave: a save of a fresh object (what a direct user of the store does), or one of the two aliasing shapes the limiter
+// itself uses: Get, modify the returned object in place, Save that same pointer (how <upstream>.state is maintained);
+// modify an object that was handed to an earlier Save and Save it again.
+func genSave(g *vkit.Rand, own []string, pickName func([]string) (string, string), next func() int32) op {
+	u, name := pickName(own)
+	o := op{Kind: "save", Upstream: u, Name: name, Ver: next()}
+	switch x := g.Intn(100); {
+	case x < 30:
+		o.Kind = "get-mutate-save"
+	case x < 45:
+		o.Kind = "mutate-resave"
+	}
+	if o.Kind != "save" {
+		o.Part = g.Pick([]string{"both", "spec", "status"})
+	}
+	return o
+}
+
 func condNames(u string) []string { return []string{u + ".state", u + ".inst-a", u + ".inst-b"} }
 
 // genSequence: save / delete / delete-upstream / flush / tick / stop over 1..3 upstreams of the own shard and 1..2 of the
@@ -124,8 +148,7 @@ func genSequence(g *vkit.Rand, mode string) sequence {
 		x := g.Intn(100)
 		switch {
 		case x < 52:
-			u, name := pickName(own)
-			s.Ops = append(s.Ops, op{Kind: "save", Upstream: u, Name: name, Ver: next()})
+			s.Ops = append(s.Ops, genSave(g, own, pickName, next))
 		case x < 56: // a condition of the other shard handed to this store (must be refused)
 			u, name := pickName(other)
 			s.Ops = append(s.Ops, op{Kind: "save", Upstream: u, Name: name, Ver: next()})
@@ -147,8 +170,7 @@ func genSequence(g *vkit.Rand, mode string) sequence {
 			if mode == "periodic" {
 				s.Ops = append(s.Ops, op{Kind: "tick"})
 			} else {
-				u, name := pickName(own)
-				s.Ops = append(s.Ops, op{Kind: "save", Upstream: u, Name: name, Ver: next()})
+				s.Ops = append(s.Ops, genSave(g, own, pickName, next))
 			}
 		}
 	}
@@ -214,6 +236,8 @@ type model struct {
 	// pend[name]: periodic mode, the value a graceful stop must flush (only while certain)
 	pend       map[string]val
 	upstreamOf map[string]string
+	// lastSave[name]: shape of the last acknowledged save of name (save | get-mutate-save | mutate-resave)
+	lastSave map[string]string
 	// deletedAck[name]: the last thing acknowledged about name is its deletion (no save attempted since)
 	deletedAck map[string]bool
 	// localWasKnown: known[] as it was when the flush in progress started (for delete-upstream concurrent with it)
@@ -221,7 +245,7 @@ type model struct {
 }
 
 func newModel(seq sequence, snap map[string]stored) *model {
-	m := &model{mode: seq.Mode, shard: seq.Shard, allowed: map[string]valset{}, local: map[string]valset{}, known: map[string]bool{}, pend: map[string]val{}, upstreamOf: map[string]string{}, deletedAck: map[string]bool{}}
+	m := &model{mode: seq.Mode, shard: seq.Shard, allowed: map[string]valset{}, local: map[string]valset{}, known: map[string]bool{}, pend: map[string]val{}, upstreamOf: map[string]string{}, deletedAck: map[string]bool{}, lastSave: map[string]string{}}
 	for n, st := range snap {
 		m.allowed[n] = valset{st.Val: true}
 		m.upstreamOf[n] = st.Upstream
@@ -269,9 +293,11 @@ func (m *model) afterLoad(snap map[string]stored) {
 	}
 }
 
-func (m *model) afterSave(o op, acked bool) {
-	v := val{o.Ver, o.Ver}
+func (m *model) afterSave(o op, v val, acked bool) {
 	delete(m.deletedAck, o.Name)
+	if acked {
+		m.lastSave[o.Name] = o.Kind
+	}
 	switch {
 	case acked && m.mode == "write-through":
 		m.allowed[o.Name] = valset{v: true}
@@ -367,6 +393,7 @@ type finding struct {
 	Oracle string // acknowledged-condition-not-persisted | deleted-condition-persists | load-* | visible-but-never-persisted
 	What   string
 	Name   string // the condition concerned
+	Shape  string // shape of the last acknowledged save of that condition
 }
 
 type panicInfo struct {
@@ -380,6 +407,7 @@ type runResult struct {
 	Verbs      []string
 	HitVerb    string
 	HitOp      string
+	hitOp      op
 	Skipped    bool
 	Crashed    bool
 	StorePanic *panicInfo
@@ -388,6 +416,8 @@ type runResult struct {
 	Final      map[string]string
 	Allowed    map[string]string
 	Sleeps     time.Duration
+	RanBetween bool   // the concurrent operation ran to completion between two API calls of a flush (the store did not make it wait)
+	Retried    bool   // a failed stop / flush was called again by the caller
 	Harness    string // set when the harness itself could not complete the run (=> inconclusive)
 }
 
@@ -459,13 +489,39 @@ func execute(seq sequence, faults []fault, emulateNilDeref bool) runResult {
 
 	var res runResult
 	cur := ""
-	add := func(oracle, what string) { res.Findings = append(res.Findings, finding{oracle, what, cur}) }
+	add := func(oracle, what string) { res.Findings = append(res.Findings, finding{oracle, what, cur, m.lastSave[cur]}) }
 
 	// runOnly performs a save / delete / delete-upstream on the store; account applies its acknowledgement to the model.
+	var aliasMu sync.Mutex
+	passed := map[string]*proxyv1alpha1.RateLimitCondition{} // the object handed to the latest Save of a name
+	savedVal := map[int32]val{}                               // op version -> the value that Save was handed
+	inPlace := map[string]valset{}                            // values the harness wrote IN PLACE into objects the store may hold
 	runOnly := func(o op) (opOutcome, error, *panicInfo) {
 		switch o.Kind {
-		case "save":
-			return callOp(func() error { return store.Save(o.Upstream, newCondition(o.Upstream, o.Name, o.Ver)) })
+		case "save", "get-mutate-save", "mutate-resave":
+			aliasMu.Lock()
+			var c *proxyv1alpha1.RateLimitCondition
+			switch o.Kind {
+			case "get-mutate-save":
+				if got, err := store.Get(o.Upstream, o.Name); err == nil {
+					c = got
+				}
+			case "mutate-resave":
+				c = passed[o.Name]
+			}
+			if c != nil {
+				mutateInPlace(c, o.Part, o.Ver)
+				if inPlace[o.Name] == nil {
+					inPlace[o.Name] = valset{}
+				}
+				inPlace[o.Name][valOf(c)] = true
+			} else {
+				c = newCondition(o.Upstream, o.Name, o.Ver) // nothing to alias (unknown or deleted condition): a fresh object
+			}
+			passed[o.Name] = c
+			savedVal[o.Ver] = valOf(c)
+			aliasMu.Unlock()
+			return callOp(func() error { return store.Save(o.Upstream, c) })
 		case "delete":
 			return callOp(func() error { return store.Delete(o.Upstream, o.Name) })
 		case "delete-upstream":
@@ -475,8 +531,11 @@ func execute(seq sequence, faults []fault, emulateNilDeref bool) runResult {
 	}
 	account := func(o op, out opOutcome) {
 		switch o.Kind {
-		case "save":
-			m.afterSave(o, out == acked)
+		case "save", "get-mutate-save", "mutate-resave":
+			aliasMu.Lock()
+			v := savedVal[o.Ver]
+			aliasMu.Unlock()
+			m.afterSave(o, v, out == acked)
 		case "delete":
 			m.afterDeleteName(o.Name, out == acked, true)
 		case "delete-upstream":
@@ -489,6 +548,8 @@ func execute(seq sequence, faults []fault, emulateNilDeref bool) runResult {
 		pi  *panicInfo
 	}
 
+	reportedAtAck := map[string]bool{} // conditions whose loss was already reported at the acknowledgement
+	lineOverride := ""
 	// perform runs one store operation and applies its acknowledgement to the model
 	perform := func(o op) (out opOutcome, err error, pi *panicInfo) {
 		switch o.Kind {
@@ -497,9 +558,26 @@ func execute(seq sequence, faults []fault, emulateNilDeref bool) runResult {
 			if out == acked {
 				m.afterLoad(a.snapshot())
 			}
-		case "save", "delete", "delete-upstream":
+		case "save", "get-mutate-save", "mutate-resave", "delete", "delete-upstream":
 			out, err, pi = runOnly(o)
 			account(o, out)
+			// "every condition acknowledged to a caller is ALREADY persisted": the moment a write-through Save of an
+			// own-shard condition returns nil, the API holds exactly what was handed in (its last API call succeeded and
+			// wrote it; nothing else runs in between on this path: the concurrent operations go through runOnly directly)
+			if out == acked && o.Kind != "delete" && o.Kind != "delete-upstream" && seq.Mode == "write-through" {
+				aliasMu.Lock()
+				v := savedVal[o.Ver]
+				aliasMu.Unlock()
+				if st, ok := a.snapshot()[o.Name]; !ok || st.Val != v {
+					holds := "nothing"
+					if ok {
+						holds = st.Val.String()
+					}
+					cur = o.Name
+					add("acknowledged-save-not-persisted-at-ack", fmt.Sprintf("%s returned nil but the API holds %s for %s at that moment", o, holds, o.Name))
+					reportedAtAck[o.Name] = true
+				}
+			}
 		case "flush", "tick", "stop":
 			fn := store.Flush
 			switch o.Kind {
@@ -538,6 +616,7 @@ func execute(seq sequence, faults []fault, emulateNilDeref bool) runResult {
 					select {
 					case ir := <-done:
 						accounted = true
+						res.RanBetween = true
 						account(*o.During, ir.out)
 						m.touchedBy(*o.During, ir.out == acked, touched)
 						res.Log = append(res.Log, describeOutcome(*o.During, ir.out, ir.err, ir.pi)+" (by another goroutine, while "+o.Kind+" was between two of its API calls)")
@@ -586,6 +665,23 @@ func execute(seq sequence, faults []fault, emulateNilDeref bool) runResult {
 					out, pi = io, ipi
 				}
 			}
+			// The caller retries: the limiter calls Stop() again until it returns nil (stopLimitStoreWithRetry); the mirror
+			// for an explicit Flush(). The injected fault is gone by then (later positions may carry the second-order
+			// fault). A later attempt that returns nil acknowledges the flush like a first one would.
+			if out == failed && o.Kind != "tick" {
+				res.Log = append(res.Log, describeOutcome(o, out, err, pi))
+				for attempt := 2; attempt <= 4 && out == failed; attempt++ {
+					res.Retried = true
+					out, err, pi = callOp(fn)
+					m.afterFlush(out == acked, nil, nil)
+					line := describeOutcome(op{Kind: fmt.Sprintf("%s (retried by the caller, attempt %d)", o.Kind, attempt)}, out, err, pi)
+					if out == failed && attempt < 4 {
+						res.Log = append(res.Log, line)
+					} else {
+						lineOverride = line
+					}
+				}
+			}
 		}
 		return out, err, pi
 	}
@@ -608,8 +704,12 @@ func execute(seq sequence, faults []fault, emulateNilDeref bool) runResult {
 		out, err, pi = perform(o)
 		if inj.calls >= at && before < at && at > 0 && res.HitOp == "" {
 			res.HitOp = o.Kind
+			res.hitOp = o
 		}
 		line := describeOutcome(o, out, err, pi)
+		if lineOverride != "" {
+			line, lineOverride = lineOverride, ""
+		}
 		if out == crashed {
 			res.Crashed = true
 		}
@@ -628,7 +728,10 @@ func execute(seq sequence, faults []fault, emulateNilDeref bool) runResult {
 		if seq.Mode == "write-through" {
 			for _, c := range store.List(labels.Everything()) {
 				cur = c.Name
-				if v := valOf(c); !a.everHeld(c.Name, v) {
+				aliasMu.Lock()
+				excused := inPlace[c.Name][valOf(c)] // the caller itself wrote it into the object it shares with the store
+				aliasMu.Unlock()
+				if v := valOf(c); !a.everHeld(c.Name, v) && !excused {
 					add("visible-but-never-persisted", fmt.Sprintf("after %s the store hands out %s=%s, a value the API has never held", o, c.Name, v))
 				}
 			}
@@ -669,6 +772,8 @@ func execute(seq sequence, faults []fault, emulateNilDeref bool) runResult {
 			add("acknowledged-condition-not-persisted", fmt.Sprintf("%s is absent from the API; permitted: %s", n, al))
 		case (len(al) == 1 && al[absent]) || (m.deletedAck[n] && actual.Spec < 9000):
 			add("deleted-condition-persists", fmt.Sprintf("%s=%s is still in the API after its acknowledged deletion", n, actual))
+		case reportedAtAck[n]:
+			// same loss, already reported where it happened
 		default:
 			add("acknowledged-condition-not-persisted", fmt.Sprintf("the API holds %s=%s; permitted: %s", n, actual, al))
 		}
@@ -729,6 +834,47 @@ func describeOutcome(o op, out opOutcome, err error, pi *panicInfo) string {
 		}
 	}
 	return line
+}
+
+// hitTouches: the store operation during which the fault hit works on the named condition (flush-like operations and the
+// initial load work on all of them).
+func (res *runResult) hitTouches(name string) bool {
+	o := res.hitOp
+	switch o.Kind {
+	case "save", "get-mutate-save", "mutate-resave", "delete":
+		return o.Name == name
+	case "delete-upstream":
+		return strings.HasPrefix(name, o.Upstream+".")
+	}
+	if o.During != nil && (o.During.Name == name || (o.During.Kind == "delete-upstream" && strings.HasPrefix(name, o.During.Upstream+"."))) {
+		return true
+	}
+	return true
+}
+
+// hitSaveOf: the fault hit a save of the named condition.
+func (res *runResult) hitSaveOf(name string) bool {
+	switch res.hitOp.Kind {
+	case "save", "get-mutate-save", "mutate-resave":
+		return res.hitOp.Name == name
+	}
+	return false
+}
+
+// mutateInPlace modifies the version carried by the spec and/or the status of an object the store may also hold.
+func mutateInPlace(c *proxyv1alpha1.RateLimitCondition, part string, ver int32) {
+	if part != "status" {
+		if len(c.Spec.LimitItemConfigurations) != 1 || c.Spec.LimitItemConfigurations[0].MaxRequestsInflight == nil {
+			c.Spec.LimitItemConfigurations = newCondition("", "", ver).Spec.LimitItemConfigurations
+		}
+		c.Spec.LimitItemConfigurations[0].MaxRequestsInflight.Max = ver
+	}
+	if part != "spec" {
+		if len(c.Status.LimitItemStatuses) != 1 {
+			c.Status.LimitItemStatuses = newCondition("", "", ver).Status.LimitItemStatuses
+		}
+		c.Status.LimitItemStatuses[0].RequestLevel = ver
+	}
 }
 
 type loaded struct {
